@@ -91,6 +91,8 @@ type c07H struct {
 	key     string
 	nsearch int
 	stuck   bool
+	// forceHost, when set, is the host of the next recorded queries.
+	forceHost string
 	desc    []string
 }
 
@@ -173,6 +175,9 @@ func c07Canon(m map[string]any) string {
 func (h *c07H) add() {
 	r := h.r
 	host := vfPick(r, c07Hosts)
+	if h.forceHost != "" {
+		host = h.forceHost
+	}
 	ip := vfPick(r, c07IPs)
 	cid := vfPick(r, c07CIDs)
 	reason := filtering.Reason(r.Intn(12))
@@ -590,6 +595,110 @@ func (h *c07H) search(q c07Query) (resp c07Resp) {
 	return resp
 }
 
+// searchDirect calls queryLog.search with explicit parameters (scan window).
+func (h *c07H) searchDirect(q c07Query, olderNS int64, limit, offset, scan int) (ids []int, oldestNS int64, panicked bool) {
+	h.nsearch++
+	params := &searchParams{limit: limit, offset: offset, maxFileScanEntries: scan}
+	if olderNS != 0 {
+		params.olderThan = time.Unix(0, olderNS)
+	}
+	v := url.Values{}
+	if q.term != "" {
+		v.Set("search", q.term)
+	}
+	if q.status != "" {
+		v.Set("response_status", q.status)
+	}
+	var crits []string
+	for _, f := range []struct {
+		name string
+		ct   criterionType
+	}{{"search", ctTerm}, {"response_status", ctFilteringStatus}} {
+		ok, c, err := h.l.parseSearchCriterion(h.ctx, v, f.name, f.ct)
+		if err != nil {
+			h.t.Fatal(err)
+		}
+		if ok {
+			params.searchCriteria = append(params.searchCriteria, c)
+			if f.ct == ctTerm {
+				crits = append(crits, vfApp("CTerm", vfBytes(c.value), vfBytes(c.asciiVal), vfBool(c.strict)))
+			} else {
+				idx := 0
+				for i, sv := range c07Statuses {
+					if sv == c.value {
+						idx = i
+					}
+				}
+				crits = append(crits, vfApp("CStatus", vfZ(int64(idx))))
+			}
+		}
+	}
+	var entries []*logEntry
+	var oldest time.Time
+	func() {
+		defer func() {
+			if pv := recover(); pv != nil {
+				panicked = true
+				h.fail("panic", "search(%+v) panicked: %v", params, pv)
+			}
+		}()
+		h.l.confMu.RLock()
+		defer h.l.confMu.RUnlock()
+		entries, oldest = h.l.search(h.ctx, params)
+	}()
+	if !oldest.IsZero() {
+		oldestNS = oldest.UnixNano()
+	}
+	cids := []string{}
+	for _, e := range entries {
+		id := 0
+		if rec := h.byNS[e.Time.UnixNano()]; rec != nil {
+			id = rec.id
+		} else {
+			h.fail("unknown-entry", "search returned an entry that was never recorded")
+		}
+		ids = append(ids, id)
+		cids = append(cids, vfN(uint64(id)))
+	}
+	code := int64(0)
+	if panicked {
+		code = 2
+	}
+	older := vfOpt("Z", olderNS != 0, vfZ(olderNS))
+	h.steps = append(h.steps, vfApp("C07.HSearchP",
+		vfApp("C07.P", older, vfZ(int64(limit)), vfZ(int64(offset)), vfZ(int64(scan)), vfList("crit", crits)),
+		vfZ(code), vfList("N", cids), vfZ(oldestNS)))
+	return ids, oldestNS, panicked
+}
+
+// scanChain follows the continuation cursor of searches with a small scan
+// window until the log reports its end; pages may come back empty.
+func (h *c07H) scanChain(crit c07Query, limit, scan int) {
+	want := h.expected(crit)
+	var got []int
+	older := int64(0)
+	for page := 0; page <= 4*len(h.recs)+6; page++ {
+		ids, oldest, panicked := h.searchDirect(crit, older, limit, 0, scan)
+		if panicked {
+			return
+		}
+		got = append(got, ids...)
+		if len(ids) == 0 && oldest != 0 {
+			h.cls["scan-window-exhausted-empty-page"] = true
+		}
+		if len(ids) < limit && oldest != 0 {
+			h.cls["scan-window-exhausted"] = true
+		}
+		if oldest == 0 {
+			break
+		}
+		older = oldest
+	}
+	if !c07Eq(got, want) {
+		h.fail("scan-window-paging", "pages of %d with scan window %d (criteria %+v) followed to the reported end give %v, want %v", limit, scan, crit, got, want)
+	}
+}
+
 // sat is the property's own reading of the search criteria.
 func (h *c07H) sat(x *c07Rec, q c07Query) bool {
 	if q.term != "" {
@@ -792,6 +901,17 @@ func (h *c07H) battery(full bool) {
 			}
 		}
 	}
+	// 4b. small scan windows (queryLog.search directly)
+	for i := 0; i < 2; i++ {
+		c := c07Query{}
+		switch r.Intn(3) {
+		case 0:
+			c.term = vfPick(r, []string{"a.b", "phone", "ads", "cdn", "192.168.1.55", "xn--"})
+		case 1:
+			c.status = vfPick(r, c07Statuses[1:])
+		}
+		h.scanChain(c, int(r.Range(1, 4)), int(r.Range(1, 7)))
+	}
 	// 5. parameter values that must not crash
 	for _, q := range []c07Query{
 		{limit: "-1"}, {limit: "0"}, {limit: "2147483648"}, {limit: "2147483647"}, {limit: "abc"},
@@ -876,6 +996,50 @@ func c07History(t *testing.T, out *vfOut, r *vfRand, nops int, mem uint, fileEna
 	out.Emit(c)
 }
 
+// c07ScanPrelude: a few old matching records behind a long run of newer
+// non-matching ones, searched with scan windows smaller than the run.
+func c07ScanPrelude(t *testing.T, out *vfOut, r *vfRand) {
+	dir, err := os.MkdirTemp(t.TempDir(), "s")
+	if err != nil {
+		t.Fatal(err)
+	}
+	defer os.RemoveAll(dir)
+	h := &c07H{t: t, ctx: context.Background(), r: r, dir: dir, byNS: map[int64]*c07Rec{}, cls: map[string]bool{}}
+	h.newLog(3, true, true)
+	c0 := h.coqConfig()
+	for i, host := range []string{"a.b", "example.org", "a.b", "a.b"} {
+		h.forceHost = host
+		h.add()
+		if i == 1 {
+			if err = h.l.rotate(h.ctx); err != nil {
+				t.Fatal(err)
+			}
+			h.steps = append(h.steps, "(C07.HOp ORotate)")
+		}
+	}
+	for i := 0; i < 17; i++ {
+		h.forceHost = vfPick(r, []string{"example.org", "cdn.example.com", "ads.example.org", "host-7.lan"})
+		h.add()
+	}
+	h.forceHost = ""
+	h.state()
+	for _, w := range []struct{ lim, scan int }{{2, 3}, {1, 1}, {5, 4}, {2, 16}, {1, 50}} {
+		h.scanChain(c07Query{term: `"a.b"`}, w.lim, w.scan)
+		h.scanChain(c07Query{}, w.lim, w.scan)
+	}
+	h.battery(false)
+	c := vfCase{
+		Coq: vfApp("C07.CHist", vfZ(maxEntrySize), vfZ(bufferSize), c0, vfList("C07.hstep", h.steps)),
+		Nontrivial: true, MonitorOK: len(h.msgs) == 0, MonitorMsg: strings.Join(h.msgs, "; "), FindingKey: h.key,
+		Desc: map[string]any{"kind": "scan-window-prelude", "entries": len(h.recs), "searches": h.nsearch},
+	}
+	for k := range h.cls {
+		c.Classes = append(c.Classes, k)
+	}
+	sort.Strings(c.Classes)
+	out.Emit(c)
+}
+
 func TestVerifC07(t *testing.T) {
 	out := vfOpen(t, "C07")
 	defer out.Close()
@@ -887,6 +1051,7 @@ func TestVerifC07(t *testing.T) {
 	c07History(t, out, pr, 25, 0, true, "prelude-mem0")
 	c07History(t, out, pr, 25, 4, false, "prelude-nofile")
 	c07History(t, out, pr, 60, 5, true, "prelude-long")
+	c07ScanPrelude(t, out, pr)
 	// ---- random histories
 	rnd := vfNewRand(out.Seed)
 	n := out.Scale(120, 1200)
